@@ -22,6 +22,14 @@ class Crash(Exception):
     """the evaluated code would raise (AttributeError on None, IndexError ...)"""
 
 
+class Raised(Exception):
+    """the evaluated code executes a `raise` statement (or a conversion such as int() fails)"""
+
+    def __init__(self, names, node=None):
+        Exception.__init__(self, '/'.join(names))
+        self.names, self.node = tuple(names), node
+
+
 UNKNOWN = object()
 
 
@@ -110,6 +118,13 @@ class Evaluator:
                 raise Crash(f'attribute .{n.attr} of None (`{src(n)}`)')
             if base is UNKNOWN:
                 raise Unknown(src(n))
+            if isinstance(base, Obj) and not hasattr(base, n.attr) and getattr(base, '_cls', None) is not None:
+                node, owner = self.ctx.repo.lookup_class_attr(base._cls, n.attr)
+                if node is not None:
+                    try:
+                        return self.folder.eval(node, owner.mod, None, owner)
+                    except NotConst:
+                        raise Unsupported(f'class attribute {n.attr}')
             if isinstance(base, (AbsToken, Obj)):
                 if not hasattr(base, n.attr):
                     raise Unsupported(f'attribute {n.attr} of abstract object')
@@ -250,6 +265,9 @@ class Evaluator:
                 if isinstance(obj, str):
                     return any(getattr(x, '__name__', None) == 'str' for x in cs)
                 raise Unsupported('isinstance operand')
+            if f.id in ('any', 'all'):
+                vals = [self.truth(x) for x in args[0]]
+                return any(vals) if f.id == 'any' else all(vals)
             if f.id == 'max':
                 return max(args)
             if f.id == 'min':
@@ -285,6 +303,17 @@ class Evaluator:
                 return base.match(*args, **kw)
             if base is None:
                 raise Crash(f'method .{f.attr} of None (`{src(n)}`)')
+            if isinstance(base, Obj):
+                args = [self.ev(a, env) for a in n.args]
+                if callable(getattr(base, f.attr, None)):
+                    return getattr(base, f.attr)(*args)
+                c = getattr(base, '_cls', None)
+                m = self.ctx.repo.lookup_method(c, f.attr) if c is not None else None
+                if m is None or n.keywords or len(m.params) != len(args) + 1:
+                    raise Unsupported(f'method {src(f)}')
+                e2 = dict(zip(m.params, [base] + args))
+                sub = Evaluator(self.ctx, m.mod, m.cls)
+                return run_function(sub, m.node, e2)
             if isinstance(base, str) and f.attr in STR_METHODS:
                 args = [self.ev(a, env) for a in n.args]
                 if f.attr == 'join':
@@ -332,6 +361,9 @@ def run_function(ev, fnode, env, max_steps=200):
         def __init__(self, v):
             self.v = v
 
+    class _Continue(Exception):
+        pass
+
     def block(stmts, env):
         for s in stmts:
             if isinstance(s, ast.Return):
@@ -360,10 +392,38 @@ def run_function(ev, fnode, env, max_steps=200):
                 it = ev.ev(s.iter, env)
                 for x in it:
                     assign(s.target, x, env)
-                    block(s.body, env)
+                    try:
+                        block(s.body, env)
+                    except _Continue:
+                        pass
                 block(s.orelse, env)
             elif isinstance(s, ast.Expr) and isinstance(s.value, ast.Constant):
                 pass
+            elif isinstance(s, ast.Expr) and isinstance(s.value, ast.Yield) and getattr(ev, 'on_yield', None) is not None:
+                ev.on_yield(ev.ev(s.value.value, env) if s.value.value is not None else None)
+            elif isinstance(s, ast.Continue):
+                raise _Continue()
+            elif isinstance(s, ast.Expr) and isinstance(s.value, ast.Call) and getattr(ev, 'effects', False):
+                ev.ev(s.value, env)
+            elif isinstance(s, ast.Raise) and getattr(ev, 'effects', False):
+                x = s.exc.func if isinstance(s.exc, ast.Call) else s.exc
+                raise Raised([src(x).split('.')[-1] if x is not None else 'reraise'], s)
+            elif isinstance(s, ast.Try) and getattr(ev, 'effects', False):
+                try:
+                    try:
+                        block(s.body, env)
+                    except Raised as r:
+                        for h in s.handlers:
+                            hn = [] if h.type is None else [src(e).split('.')[-1] for e in (h.type.elts if isinstance(h.type, ast.Tuple) else [h.type])]
+                            if h.type is None or set(hn) & set(r.names) or 'Exception' in hn:
+                                block(h.body, env)
+                                break
+                        else:
+                            raise
+                    else:
+                        block(s.orelse, env)
+                finally:
+                    block(s.finalbody, env)
             elif isinstance(s, ast.Pass):
                 pass
             elif isinstance(s, (ast.FunctionDef,)):
@@ -383,6 +443,11 @@ def run_function(ev, fnode, env, max_steps=200):
         elif isinstance(t, ast.Tuple):
             for e, x in zip(t.elts, v):
                 assign(e, x, env)
+        elif isinstance(t, ast.Subscript) and not isinstance(t.slice, ast.Slice):
+            base = ev.ev(t.value, env)
+            if not isinstance(base, (dict, list)):
+                raise Unsupported('subscript store')
+            base[ev.ev(t.slice, env)] = v
         else:
             raise Unsupported('store target')
     try:
